@@ -14,6 +14,7 @@ InvReducedLabels == i > 0 => ReducedLabels(E)
 InvSharedIffSameIndex == i > 0 => SharedIffSameIndex(Cases[i], E)
 Strip(b) == [kind |-> b.kind, members |-> b.members, g |-> b.g, labels |-> b.labels, reduced |-> b.reduced, den |-> b.den, res |-> b.res,
              w |-> b.w, clp |-> b.clp, valid |-> b.valid, why |-> b.why, active |-> b.active,
+             zeroed |-> SelectSeq(b.labels, LAMBDA x : x \in b.zeroed),
              glabels |-> IF b.kind = "full" THEN b.glabels ELSE <<>>]
 Emit == IF i > 0 THEN LET e == E IN
            PrintT(<<"EXP", ToJson([i |-> i, linked |-> e.linked, blocks |-> [b \in 1..Len(e.blocks) |-> Strip(e.blocks[b])],
